@@ -188,6 +188,9 @@ def stamp(detector, _p=None, acc=None, **user):
     detector._memory["seen"] = cnt if nacc == 3 else -100 - nacc
     if p.get("delay"):
         time.sleep(max(0.0, p["delay"] * (40 - level % 37) / 1000.0))
+    for v in user.values():          # a model that reorders its own list-valued arguments in place
+        if isinstance(v, list) and len(v) > 1:
+            v.reverse()
     detector.photon.array = px.level_array(level, shape)
     if p.get("img"):
         detector.image.array = px.level_array(level % 500 + 1, shape, "uint16")
@@ -208,6 +211,9 @@ def stamp2(detector, _p=None, **user):
     for j in p["photon_js"]:
         eff[j] = (ph // 8 ** j) % 8 if ph >= 0 else UNKNOWN
     detector.signal.array = px.level_array(level, shape)
+    for v in user.values():
+        if isinstance(v, list) and len(v) > 1:
+            v.reverse()
     ev = {"e": "run", "eff": eff, "seenMem": detector._memory.get("seen", -1),
           "thread": threading.get_ident(), "step": int(detector.pipeline_count), "job": p.get("job")}
     pm.SINK.emit(ev)
